@@ -40,7 +40,7 @@ func vC11HGenCfg(r *vRand) *vRHCfg {
 
 func vC11HWorld(r *vRand, c *vC11Cfg, tokens []string) *vC11World {
 	failMode := r.Intn(3)
-	if r.Bool() {
+	if r.Bool() || len(c.Chains) == 0 {
 		failMode = 0
 	}
 	w := vC11GenWorld(r, c, failMode)
